@@ -368,8 +368,38 @@ def deliverMessage (c : Cfg) (s : St) (op : Nat) (p : Bytes) (frag : Bool) : St 
   | (s, .ok ()) => callback c s second.1 second.2
   | r => r
 
-/-- `recv_data_frame(True)` + the routing of `read()`; the head event has arrived.
-    Result: `ok true` = read() returned True, `ok false` = it returned a falsy value. -/
+/-- the value `read()` returns after a step that returned normally: `v` -/
+def asRead (v : Bool) (x : St × R Unit) : St × R Bool :=
+  match x with
+  | (s, .ok ()) => (s, .ok v)
+  | (s, .exc e) => (s, .exc e)
+  | (s, .halt) => (s, .halt)
+
+/-- `recv_data_frame(True)` has consumed the complete event `ev`: the routing of `read()`.
+    Result: `ok true` = read() returned True, `ok false` = it returned a falsy value.
+    (`part` is handled by the caller — it is not a complete event; the branch here is never reached.) -/
+def handleEv (c : Cfg) (s : St) : SrvEv → St × R Bool
+  | .part => (s, .halt)
+  | .message op p frag => asRead true (deliverMessage c s op p frag)
+  | .ping p =>
+    let s := if s.writable then s.emit (.wrote Gen.opcodePong p) else s
+    asRead true (callback c s .onPing [.bytes p])
+  | .pong p =>
+    let s := { s with lastPong := s.now }
+    asRead true (callback c s .onPong [.bytes p])
+  | .close body =>
+    -- recv_data_frame: send_close() (connected := False, close 1000 written), then routing
+    let s := { s with sock := s.sock.map fun (w : WSock) => { w with connected := false } }
+    let s := if s.writable then s.emit (.wrote Gen.opcodeClose (beN 2 Gen.statusNormal)) else s
+    asRead false (if Gen.appCloseFrameToTeardown then teardown c s (some body)
+                  else handleDisconnect c s (.frame body) (c.reconnect ≠ 0))
+  | .eof => (closeTransport s, .exc .closed)
+  | .reset => ({ s with sock := s.sock.map fun (w : WSock) => { w with dead := true } }, .exc .transport)
+  | .protoError => (s, .exc .proto)
+  | .payloadError => (s, .exc .payload)
+
+/-- `recv_data_frame(True)` + the routing of `read()`: wait for the head event (it has arrived when
+    `read()` is called from the dispatcher; after a `part` the call blocks in `recv` for the next one). -/
 def readEvents (c : Cfg) : List TEv → St → St × R Bool
   | [], s =>
     -- nothing will ever arrive: blocked in recv for ever
@@ -382,45 +412,11 @@ def readEvents (c : Cfg) : List TEv → St → St × R Bool
     let s := { s with evs := rest, arr := at_ }
     match e.ev with
     | .part => readEvents c rest s
-    | .message op p frag =>
-      match deliverMessage c s op p frag with
-      | (s, .ok ()) => (s, .ok true)
-      | (s, .exc e) => (s, .exc e)
-      | (s, .halt) => (s, .halt)
-    | .ping p =>
-      let s := if s.writable then s.emit (.wrote Gen.opcodePong p) else s
-      match callback c s .onPing [.bytes p] with
-      | (s, .ok ()) => (s, .ok true)
-      | (s, .exc e) => (s, .exc e)
-      | (s, .halt) => (s, .halt)
-    | .pong p =>
-      let s := { s with lastPong := s.now }
-      match callback c s .onPong [.bytes p] with
-      | (s, .ok ()) => (s, .ok true)
-      | (s, .exc e) => (s, .exc e)
-      | (s, .halt) => (s, .halt)
-    | .close body =>
-      -- recv_data_frame: send_close() (connected := False, close 1000 written), then routing
-      let s := { s with sock := s.sock.map fun (w : WSock) => { w with connected := false } }
-      let s := if s.writable then s.emit (.wrote Gen.opcodeClose (beN 2 Gen.statusNormal)) else s
-      let (s, r) := if Gen.appCloseFrameToTeardown then teardown c s (some body)
-                    else handleDisconnect c s (.frame body) (c.reconnect ≠ 0)
-      match r with
-      | .ok () => (s, .ok false)
-      | .exc e => (s, .exc e)
-      | .halt => (s, .halt)
-    | .eof => (closeTransport s, .exc .closed)
-    | .reset => ({ s with sock := s.sock.map fun (w : WSock) => { w with dead := true } }, .exc .transport)
-    | .protoError => (s, .exc .proto)
-    | .payloadError => (s, .exc .payload)
+    | ev => handleEv c s ev
 
 /-- `read()` -/
 def read (c : Cfg) (s : St) : St × R Bool :=
-  if !s.keepRunning then
-    match teardown c s none with
-    | (s, .ok ()) => (s, .ok false)
-    | (s, .exc e) => (s, .exc e)
-    | (s, .halt) => (s, .halt)
+  if !s.keepRunning then asRead false (teardown c s none)
   else
     match s.sock with
     | none => (s, .exc .attrError)          -- `self.sock.recv_data_frame` on None
@@ -470,6 +466,15 @@ def select (c : Cfg) (s : St) : St × Option Bool :=
     let (s, ok) := waitUntil c s wake
     if !ok then (s, none) else (s, some (s.rawReadable c || s.pendingTls c))
 
+/-- what the loop does with the value of `read()`: an exception propagates, a falsy value breaks the
+    loop, otherwise `check()` and the next iteration `k`. -/
+def afterRead (c : Cfg) (k : St → St × R Unit) (x : St × R Bool) : St × R Unit :=
+  match x with
+  | (s, .exc e) => (s, .exc e)
+  | (s, .halt) => (s, .halt)
+  | (s, .ok false) => (s, .ok ())
+  | (s, .ok true) => if checkFails c s then (s, .exc .timeout) else k s
+
 /-- `Dispatcher.read` / `SSLDispatcher.read`: `while app.keep_running: if select: if not read(): break; check()` -/
 def dispLoop (c : Cfg) : Nat → St → St × R Unit
   | 0, s => (s.emit .outOfFuel, .halt)
@@ -479,14 +484,7 @@ def dispLoop (c : Cfg) : Nat → St → St × R Unit
     if c.ssl && s.sock.isNone then (s, .exc .attrError) else
     match select c s with
     | (s, none) => (s, .halt)
-    | (s, some ready) =>
-      let (s, r) := if ready then read c s else (s, .ok true)
-      match r with
-      | .exc e => (s, .exc e)
-      | .halt => (s, .halt)
-      | .ok false => (s, .ok ())
-      | .ok true =>
-        if checkFails c s then (s, .exc .timeout) else dispLoop c n s
+    | (s, some ready) => afterRead c (dispLoop c n) (if ready then read c s else (s, .ok true))
 
 /-! ### setSock, run_forever -/
 
@@ -548,15 +546,17 @@ def argsAccepted (iv : Int) (to : Option Int) : Bool :=
   !(decide (iv < 0)) &&
   !(match to with | some t => t ≠ 0 && iv ≠ 0 && decide (iv ≤ t) | none => false)
 
-/-- the try / except / finally of run_forever after the prologue -/
-def runBody (c : Cfg) (s : St) : St × R Unit :=
-  let (s, r) := match setSock c s false with
-    | (s, .ok ()) => if c.reconnect ≠ 0 then reconnectLoop c c.fuel s else (s, .ok ())
-    | r => r
-  match r with
-  | .halt => (s, .halt)
-  | .exc _ =>
-    -- except (KeyboardInterrupt, Exception): teardown()   then   finally: teardown()
+/-- the `try` block of run_forever: `setSock()`, then the reconnect loop of the built-in dispatcher -/
+def firstStage (c : Cfg) (s : St) : St × R Unit :=
+  match setSock c s false with
+  | (s, .ok ()) => if c.reconnect ≠ 0 then reconnectLoop c c.fuel s else (s, .ok ())
+  | r => r
+
+/-- `except (KeyboardInterrupt, Exception): teardown()` and `finally: teardown()` -/
+def afterBody (c : Cfg) (x : St × R Unit) : St × R Unit :=
+  match x with
+  | (s, .halt) => (s, .halt)
+  | (s, .exc _) =>
     match teardown c s none with
     | (s, .ok ()) => if Gen.appFinallyTeardown then teardown c s none else (s, .ok ())
     | (s, .exc e) =>
@@ -564,18 +564,31 @@ def runBody (c : Cfg) (s : St) : St × R Unit :=
       | (s, .ok ()) => (s, .exc e)
       | r => r
     | r => r
-  | .ok () => if Gen.appFinallyTeardown then teardown c s none else (s, .ok ())
+  | (s, .ok ()) => if Gen.appFinallyTeardown then teardown c s none else (s, .ok ())
 
-def runForever (c : Cfg) (s : St) : St :=
-  if !argsAccepted c.iv c.to then s.emit (.raisedOut .wsgeneric)
-  else if s.sock.isSome then s.emit (.raisedOut .wsgeneric)
+/-- the try / except / finally of run_forever after the prologue -/
+def runBody (c : Cfg) (s : St) : St × R Unit := afterBody c (firstStage c s)
+
+/-- how a call of run_forever ended -/
+inductive Outcome where
+  | returned (b : Bool) | raised (e : AExn) | cut
+  deriving DecidableEq, Repr
+
+/-- the assignments at the start of run_forever (after the validation) -/
+def prologue (s : St) : St :=
+  { s with hasDoneTeardown := false, keepRunning := true,
+           hasErrored := if Gen.appResetsHasErrored then false else s.hasErrored }
+
+def runForeverO (c : Cfg) (s : St) : St × Outcome :=
+  if !argsAccepted c.iv c.to then (s.emit (.raisedOut .wsgeneric), .raised .wsgeneric)
+  else if s.sock.isSome then (s.emit (.raisedOut .wsgeneric), .raised .wsgeneric)
   else
-    let s := { s with hasDoneTeardown := false, keepRunning := true,
-                      hasErrored := if Gen.appResetsHasErrored then false else s.hasErrored }
-    match runBody c s with
-    | (s, .ok ()) => s.emit (.returned s.hasErrored)
-    | (s, .exc e) => s.emit (.raisedOut e)
-    | (s, .halt) => s
+    match runBody c (prologue s) with
+    | (s, .ok ()) => (s.emit (.returned s.hasErrored), .returned s.hasErrored)
+    | (s, .exc e) => (s.emit (.raisedOut e), .raised e)
+    | (s, .halt) => (s, .cut)
+
+def runForever (c : Cfg) (s : St) : St := (runForeverO c s).1
 
 /-- several runs on the same object, one world (list of dial outcomes) per run. -/
 def runMany (c : Cfg) : List (List Dial) → St → St
